@@ -536,6 +536,20 @@ def check_pack_purity(ctx):
             done.add((cname, fi.id))
             w = repo.walker(inline_depth=0, max_paths=ctx.max_paths)
             pk = packet_param(fi, None)
+            # Round 6: 'x = <the packet's value>; x += ...' extends a mutable value (bytearray, list)
+            # in place: the packet is changed by pack(), a second pack() emits other bytes
+            aliases = {}
+            for a_ in ast.walk(fi.node):
+                if isinstance(a_, ast.Assign) and len(a_.targets) == 1 and isinstance(a_.targets[0], ast.Name):
+                    v_ = a_.value
+                    reads_pkt = (isinstance(v_, ast.Call) and isinstance(v_.func, ast.Name) and v_.func.id == 'getattr' and v_.args and canon(v_.args[0]) == pk) or \
+                                (isinstance(v_, ast.Attribute) and canon(v_.value) == pk)
+                    aliases.setdefault(a_.targets[0].id, []).append(reads_pkt)
+            for a_ in ast.walk(fi.node):
+                if isinstance(a_, ast.AugAssign) and isinstance(a_.target, ast.Name) and isinstance(a_.op, (ast.Add, ast.Mult, ast.BitOr, ast.BitAnd)) \
+                        and aliases.get(a_.target.id) and all(aliases[a_.target.id]):
+                    n += 1
+                    ctx.violation(rule, fi, '[%s] %s' % (cname, stmt_text(a_)[:100]), 'an augmented assignment on a name that is the packet\'s own value: for a mutable value (a bytearray given by the user, a list) it changes that value in place, so pack() modifies the packet and the next pack() differs', a_.lineno, witness=True)
             seen = set()
             for p in w.paths(fi.node, cls=ci):
                 for e in p.all_effects():
